@@ -783,6 +783,18 @@ class HeapMixin:
     def map_loop(self, s, it):
         return False
 
+    def map_update_loop(self, recv, other, node):
+        """MutableMapping.update(other) for a symbolic dict `other`: the reference implementation's sequential
+        `for key in other: self[key] = other[key]` over the dict's explicit key list (bounded stand-in: the
+        contract's setup fixes how many keys there can be)."""
+        m = self.heap.get(other)
+        keys = getattr(m, 'explicit_keys', None)
+        if keys is None:
+            raise Unsupported('update() from a symbolic map of unknown size (needs a loop rule or a contract)')
+        for k in list(keys):
+            self.setitem(recv, k, self.getitem(other, k, node), node)
+        return None
+
     def iter_abstract_list(self, ref, o, node):
         raise Unsupported('iteration over abstract-tail list')
 
